@@ -22,9 +22,9 @@ func init() {
 		Level: "exploration",
 		Cases: func(t string) int {
 			if t == "thorough" {
-				return 9000
+				return 18000
 			}
-			return 720
+			return 2100
 		},
 		Batch: func(t string) int { return 30 },
 		Floors: []string{"projections_checked", "via_reader_with_schema", "via_convert_rowgroup_rows", "via_convert_row_reader", "via_copy_rows", "via_merge_with_schema", "via_convert_rowgroup_chunks", "via_sorted_merge_with_schema", "edit_delete", "edit_permute", "edit_add_optional",
